@@ -476,8 +476,15 @@ func (r *Run) recorded() *decision {
 
 func (r *Run) record(d *decision) {
 	if r.W.Lim.MaxDecisions > 0 && len(r.W.dec) >= r.W.Lim.MaxDecisions {
+		if r.nontermIsViolation {
+			// a path that keeps deciding (typically a loop whose trip count comes from the input): candidate
+			// non-termination, with a model that makes the wide inputs as large as the path allows; the native
+			// replay (10 s) confirms or refutes it
+			r.violate(r.cur, "nontermination", "decision budget exceeded: the work grows with an input value", r.largeModelSafe())
+		}
 		r.abort("decision budget exceeded (%d)", r.W.Lim.MaxDecisions)
 	}
+	r.checkDeadline()
 	r.W.dec = append(r.W.dec, d)
 	r.W.Stats.Decisions++
 }
@@ -535,6 +542,41 @@ func (r *Run) modelValue(t *sym.Term) (uint64, bool) {
 func (r *Run) setModel(m map[string]uint64) {
 	r.model = m
 	r.evalMemo = map[*sym.Term]uint64{}
+}
+
+// checkDeadline ends the current path when the instance's wall-clock budget is spent (a single path can be
+// arbitrarily long: a symbolic loop bound with a slow solver query per iteration).
+func (r *Run) checkDeadline() {
+	if d := r.W.Lim.Deadline; !d.IsZero() && time.Now().After(d) {
+		r.abort("deadline reached inside a path")
+	}
+}
+
+// largeModelSafe returns a model of the current path in which one 64-bit (else 32-bit) input is huge, if the
+// path allows it; otherwise any model.
+func (r *Run) largeModelSafe() (m map[string]uint64) {
+	defer func() {
+		if e := recover(); e != nil {
+			m = map[string]uint64{}
+		}
+	}()
+	syms := r.allSyms()
+	for _, w := range []uint8{64, 32} {
+		for i := len(r.inputs) - 1; i >= 0; i-- {
+			t := r.inputs[i].t
+			if t.W != w {
+				continue
+			}
+			big := r.C.Const(1<<40, 64)
+			if w == 32 {
+				big = r.C.Const(1<<30, 32)
+			}
+			if res, mm := r.W.S.CheckAssumingModel(r.C.And(r.C.Slt(big, t), r.C.Slt(r.C.Const(0, w), t)), syms); res == sym.Sat && mm != nil {
+				return mm
+			}
+		}
+	}
+	return r.currentModelOrSolve()
 }
 
 func (r *Run) allSyms() []*sym.Term {
